@@ -716,14 +716,20 @@ class SymNditer:
         self._a = arr
         # NumPy's default iteration order is 'K' (memory order): ask the real iterator on a float array of the same
         # layout (a transposed view is walked column by column)
-        try:
-            proxy = _np.empty_like(arr, dtype=float, order="K")
-            it = _np.nditer(proxy, flags=["multi_index"])
-            self._idx = []
-            while not it.finished:
-                self._idx.append(tuple(it.multi_index))
-                it.iternext()
-        except Exception:
+        self._idx = None
+        for mk in (lambda: _np.nditer(arr, flags=["multi_index", "refs_ok"]),            # the array's own strides
+                   lambda: _np.nditer(_np.empty_like(arr, dtype=float, order="K"), flags=["multi_index"])):
+            try:
+                it = mk()
+                idx = []
+                while not it.finished:
+                    idx.append(tuple(it.multi_index))
+                    it.iternext()
+                self._idx = idx
+                break
+            except Exception:
+                continue
+        if self._idx is None:
             self._idx = list(_np.ndindex(*arr.shape))
         self._i = 0
 
@@ -734,6 +740,11 @@ class SymNditer:
     @property
     def multi_index(self):
         return self._idx[self._i]
+
+    @property
+    def iterindex(self):
+        # position in the iteration (equals the C-order flat index only for C-contiguous operands)
+        return self._i
 
     @property
     def index(self):
